@@ -203,7 +203,8 @@ impl MT204 {
         let currencies = self.get_transaction_currencies();
 
         if currencies.len() > 1 {
-            let currency_list: Vec<String> = currencies.into_iter().collect();
+            let mut currency_list: Vec<String> = currencies.into_iter().collect();
+            currency_list.sort();
             return Some(SwiftValidationError::content_error(
                 "C02",
                 "32B",
